@@ -10,7 +10,7 @@ open Irismod Irismod.Sdk Irismod.Farm Irismod.Spec
 theorem core_bankOnly {s s' : State} (b : BankOnly s s') (h : Core s) : Core s' := by
   have gp : ∀ id, getPool s' id = getPool s id := fun id => by unfold getPool; rw [b.pools]
   have gf : ∀ a id, getFarmer s' a id = getFarmer s a id := fun a id => by unfold getFarmer; rw [b.farmers]
-  refine ⟨by rw [b.height]; exact h.hnn, poolsAll_same h.wf b.pools, ?_, ?_, ?_, ?_, ?_⟩
+  refine ⟨by rw [b.height]; exact h.hnn, poolsAll_same h.wf b.pools, ?_, ?_, ?_, ?_, ?_, ?_⟩
   · rw [b.height]; exact poolsAll_same h.time b.pools
   · obtain ⟨q1, q2, q3⟩ := h.queue
     refine ⟨?_, ?_, by rw [b.queue]; exact q3⟩
@@ -21,6 +21,8 @@ theorem core_bankOnly {s s' : State} (b : BankOnly s s') (h : Core s) : Core s' 
     exact h.budget id p hp ha
   · intro a id f p hf hp; rw [gf] at hf; rw [gp] at hp; exact h.debt a id f p hf hp
   · intro a id f hf; rw [gf] at hf; rw [gp]; exact h.fpool a id f hf
+  · intro id p hp r hr; rw [gp] at hp
+    exact (h.ghost id p hp r hr).transfer (by unfold C06.active; rw [b.queue]; exact fun h => h) (by rw [b.height]; exact fun h => h)
 
 /-- the rules after `updatePool`: each is the old rule or its released successor -/
 theorem updOk_rule_origin {s s' : State} {id : PoolId} {p p' : Pool} {amount : Int} {d : Bool}
@@ -42,7 +44,7 @@ theorem core_updOk {s s' : State} {id : PoolId} {p p' : Pool} {amount : Int}
   have gself : getPool s' id = some p' := getPool_set_self _ _ _ _ h.pools
   have gother : ∀ id2, id ≠ id2 → getPool s' id2 = getPool s id2 := fun id2 e => getPool_set_other s s' id id2 p' h.pools e
   have gf : ∀ a i, getFarmer s' a i = getFarmer s a i := fun a i => by unfold getFarmer; rw [h.farmers]
-  refine ⟨by rw [h.height]; exact hc.hnn, poolsAll_set hc.wf h.pools (updOk_wf h hw), ?_, ?_, ?_, ?_, ?_⟩
+  refine ⟨by rw [h.height]; exact hc.hnn, poolsAll_set hc.wf h.pools (updOk_wf h hw), ?_, ?_, ?_, ?_, ?_, ?_⟩
   · rw [h.height]; exact poolsAll_set hc.time h.pools (updOk_time h ht hstart)
   · obtain ⟨q1, q2, q3⟩ := hc.queue
     refine ⟨?_, ?_, by rw [h.queue]; exact q3⟩
@@ -89,5 +91,19 @@ theorem core_updOk {s s' : State} {id : PoolId} {p p' : Pool} {amount : Int}
     by_cases e : id = id2
     · subst e; exact ⟨p', gself⟩
     · exact ⟨p2, by rw [gother id2 e]; exact hp2⟩
+  · intro id2 p2 hp2 r' hr'
+    by_cases e : id = id2
+    · subst e
+      rw [gself] at hp2; cases hp2
+      obtain ⟨r, hr, _, hor⟩ := updOk_rule_origin h r' hr'
+      have g := hc.ghost id p hp r hr
+      have hact : C06.active s id p = false → C06.active s' id p' = false := by
+        unfold C06.active; rw [h.queue, hend]; exact fun h => h
+      have hendle : p.endH ≤ s.height → p'.endH ≤ s'.height := by rw [hend, h.height]; exact fun h => h
+      rcases hor with e1 | e1
+      · rw [e1]; exact g.transfer hact hendle
+      · exact g.stepped e1 hact hendle
+    · rw [gother id2 e] at hp2
+      exact (hc.ghost id2 p2 hp2 r' hr').transfer (by unfold C06.active; rw [h.queue]; exact fun h => h) (by rw [h.height]; exact fun h => h)
 
 end Irismod.Proofs.Farm
